@@ -375,6 +375,43 @@ def check_file(ctx, V, C, spec, deep=True):
     return ok, data, iv
 
 
+def check_lazy_resave(ctx, V, C, name, seed):
+    """read a saved file WITHOUT loading it, save it, read it back: every stored frame (hand-authored mipmaps that are not
+    the average of their parent) must come back unchanged; same after an explicit VTF.load()."""
+    rng = random.Random(f'lazy:{name}:{seed}')
+    spec = U.gen_spec(rng, [name], max_log=3)
+    spec.update({'w': 8, 'h': 4, 'frames': 2, 'depth': 1, 'fill': 'all', 'fmt': name, 'save_minor': None, 'ops': [],
+                 'thumb': rng.choice(['NONE', name, 'BGRA8888']), 'flags': spec['flags'] & ~0x4000})
+    inp = {'kind': 'lazy', 'fmt': name, 'seed': seed}
+    key = 'codec-' + name if name in ('RGB565', 'BGR565') or spec['thumb'] in ('RGB565', 'BGR565') else 'lazy-resave'
+    try:
+        v, mj = U.build(V, spec)
+        d1 = U.impl_save(V, v, spec)
+        v1 = U.impl_view(V, d1)
+        for loaded in (False, True):
+            r = V.VTF.read(BytesIO(d1))
+            if loaded:
+                r.load()
+            b2 = BytesIO()
+            r.save(b2, sheet_seq_version=spec['sheetver'], asw_or_later=spec['asw'])
+            v2 = U.impl_view(V, b2.getvalue())
+            for fa, fb in zip(v1['frames'], v2['frames']):
+                if fa['key'] != fb['key'] or fa['px'] != fb['px']:
+                    W(ctx, key, f'{name}: after read{" + load()" if loaded else " (frames never loaded)"} -> save -> read, frame '
+                      f'{fa["key"]} changed: {str(fb["px"])[:60]} instead of {str(fa["px"])[:60]}', inp)
+                    return False
+            if len(v1['frames']) != len(v2['frames']) or any(v1[k] != v2[k] for k in U.VIEW_KEYS):
+                W(ctx, key, f'{name}: metadata / frame table changed by read -> save -> read', inp)
+                return False
+            if not loaded and b2.getvalue() != d1:
+                W(ctx, key, f'{name}: read (lazy) -> save does not reproduce the file', inp)
+                return False
+    except Exception as e:  # noqa
+        W(ctx, key, f'{name}: read -> save -> read raised {type(e).__name__}: {e}', inp)
+        return False
+    return True
+
+
 # ------------------------------------------------------------------ correspondence
 
 def correspond(ctx, drivers):
@@ -594,6 +631,53 @@ def correspond(ctx, drivers):
             if d is not None:
                 ctx.disagree({'op': 'read', 'spec': spec}, d[1], d[2], 'VTF.read: ' + str(d[0]))
 
+    # K. saving a file that was read: lazily (frames never loaded), after VTF.load(), after clear_mipmaps / compute_mipmaps
+    reqs, meta = [], []
+    done = 0
+    for spec, okf in _CACHE['files']:
+        if done >= ctx.budget(60, 400) or spec['w'] * spec['h'] > 256:
+            continue
+        try:
+            v, mj = U.build(V, spec)
+            d = U.impl_save(V, v, spec)
+        except Exception:  # noqa
+            continue
+        if isinstance(d, tuple):
+            continue
+        iv = U.impl_view(V, d)
+        if 'err' in iv or any(isinstance(f['px'], dict) for f in iv['frames']) or (iv['low'] and isinstance(iv['low']['px'], dict)):
+            continue
+        mode = rng.choice([[], [], [[2, 0]], [[0, rng.choice([0, 1])]], [[1, rng.choice([0, 3, 4])]], [[2, 0], [0, 0]]])
+        mj2 = {k: iv[k] for k in ('width', 'height', 'depth', 'minor', 'flags', 'frame_count', 'first', 'refl', 'bump', 'fmt',
+                                  'low_fmt', 'mip_count', 'res', 'sheet')}
+        mj2['low'] = {'w': iv['low_w'], 'h': iv['low_h'], 'data': None, 'file': iv['low']['px'] if iv['low'] else None}
+        mj2['frames'] = [{'key': f['key'], 'w': f['w'], 'h': f['h'], 'data': None, 'file': f['px']} for f in iv['frames']]
+        r = V.VTF.read(BytesIO(d))
+        b2 = BytesIO()
+        try:
+            for op, arg in mode:
+                if op == 2: r.load()
+                elif op == 0: r.clear_mipmaps(after=arg)
+                else: r.compute_mipmaps(V.FilterMode(arg))
+            r.save(b2, sheet_seq_version=spec['sheetver'], asw_or_later=spec['asw'])
+            impl = list(b2.getvalue())
+        except Exception as e:  # noqa
+            impl = {'err': type(e).__name__}
+        reqs.append({'op': 'save', 'vtf': mj2, 'minor': iv['minor'], 'sheetver': spec['sheetver'], 'asw': spec['asw'], 'ops': mode})
+        meta.append((spec, mode, impl))
+        ctx.case({'op': 'resave', 'spec': spec, 'mode': mode}, nontrivial=True, sample_every=41)
+        ctx.count('resave:' + ('lazy' if not mode else '+'.join(str(o[0]) for o in mode)))
+        done += 1
+    for (spec, mode, impl), rep in zip(meta, drv.batch(reqs, timeout=900)):
+        ctx.traces_vs_impl += 1
+        got = rep.get('bytes', rep)
+        if got != impl:
+            if isinstance(got, list) and isinstance(impl, list):
+                i = next((i for i in range(min(len(got), len(impl))) if got[i] != impl[i]), min(len(got), len(impl)))
+                ctx.disagree({'op': 'resave', 'spec': spec, 'mode': mode}, {'len': len(impl), 'at': i, 'bytes': impl[i:i + 8]},
+                             {'len': len(got), 'at': i, 'bytes': got[i:i + 8]}, 'save of a read file')
+            else:
+                ctx.disagree({'op': 'resave', 'spec': spec, 'mode': mode}, str(impl)[:80], str(got)[:80], 'save of a read file')
     # J. readers on edited headers: every value of the two format fields, mipmap / frame / depth counts, flags, version
     reqs, meta = [], []
     bases = []
@@ -648,6 +732,10 @@ def search(ctx):
             check_words(ctx, V, C, nm)
     for w, h in [(1, 1), (2, 2), (4, 4), (1, 4), (4, 1), (3, 5)]:
         check_bounds(ctx, V, w, h)
+    for nm in names:
+        for sd in range(ctx.budget(2, 8)):
+            check_lazy_resave(ctx, V, C, nm, sd)
+            ctx.count('search:lazy-resave')
     if 'files' not in _CACHE:   # the correspondence did not run: do the whole-file round trips here
         rng = ctx.rng
         for i in range(ctx.budget(150, 1500)):
@@ -716,6 +804,8 @@ def replay(ctx, payload, quiet=False):
         check_bounds(ctx, V, inp['w'], inp['h'])
     elif kind == 'file':
         check_file(ctx, V, C, inp['spec'])
+    elif kind == 'lazy':
+        check_lazy_resave(ctx, V, C, inp['fmt'], inp['seed'])
     else:
         print('replay file names a broken obligation/correspondence, no input to replay:', payload.get('broken_obligations'),
               payload.get('disagreements', [])[:1])
